@@ -31,18 +31,18 @@ type PolicyFields struct {
 
 // PolicyVerdict is the model's answer.
 type PolicyVerdict struct {
-	Malformed  bool   // some option has a wrong non-zero size (or an empty non-nil minimum TEE TCB SVN / wrong RTMR count)
-	EmptyNonNil bool  // some field is empty but non-nil
-	DontCare   bool   // verdict left open by the property (AnyMrTd with an empty entry)
-	Miss       string // first missed expectation among the well-formed part ("" = none)
-	Configured int    // number of configured expectations
-	Near       bool   // some configured expectation differs from the quote in at most one bit / one SVN step
+	Malformed   bool   // some option has a wrong non-zero size (or an empty non-nil minimum TEE TCB SVN / wrong RTMR count)
+	EmptyNonNil bool   // some field is empty but non-nil
+	DontCare    bool   // verdict left open by the property (AnyMrTd with an empty entry)
+	Miss        string // first missed expectation among the well-formed part ("" = none)
+	Configured  int    // number of configured expectations
+	Near        bool   // some configured expectation differs from the quote in at most one bit / one SVN step
 }
 
 // Fixed masks (documented next to the constants / Intel TDX module spec).
 const (
-	XfamFixed1 uint64 = 0x3
-	XfamFixed0 uint64 = 0x0006DBE7
+	XfamFixed1    uint64 = 0x3
+	XfamFixed0    uint64 = 0x0006DBE7
 	TdAttrAllowed uint64 = 1<<0 | 1<<28 | 1<<30 | 1<<63
 )
 
